@@ -106,6 +106,9 @@ func one(run *kit.Run, c caseFile, prog []hist.Op, k int, ending, id string) {
 		fail := func(class, format string, a ...any) {
 			run.Violate(class+"|"+key, fmt.Sprintf("[k=%d ending=%s] ", k, ending)+fmt.Sprintf(format, a...)+fmt.Sprintf("\npool: %v\nsetup: %s\nprogram: %s", c.Pool, hist.Case{Ops: c.Ops[:c.Setup]}.String(), hist.Case{Ops: prog}.String()), c)
 		}
+		// reading through the transaction (Txn.Iter) resets its copy cache: every other execution leaves the
+		// transaction alone between its writes, so that defects which need the cache to survive are not masked
+		quiet := (k+len(ending))%2 == 1
 		body := func(txn *fox.Txn) {
 			w.Txn = txn
 			w.Pending = w.Committed.Clone()
@@ -123,6 +126,9 @@ func one(run *kit.Run, c caseFile, prog []hist.Op, k int, ending, id string) {
 					fail("isolation", "after step %d (%s) of the open transaction the router no longer shows the committed state\n%s", i, op, hist.Diff(before, got))
 					return
 				}
+				if quiet && i < k-1 {
+					continue
+				}
 				// the transaction reads its own writes
 				if want, got := w.Expect(w.Pending), w.Observe(txn); want != got {
 					fail("own-writes", "after step %d (%s) the transaction does not show its own writes\n%s", i, op, hist.Diff(want, got))
@@ -132,7 +138,7 @@ func one(run *kit.Run, c caseFile, prog []hist.Op, k int, ending, id string) {
 			}
 			// a snapshot of the write transaction is read-only: writing through it, committing or aborting it has no effect
 			// on the router, on the parent transaction or on the writer lock
-			if k > 0 {
+			if k > 0 && !quiet {
 				snap := txn.Snapshot()
 				if snap == nil {
 					fail("snapshot", "Snapshot() of an open write transaction returned nil")
